@@ -204,7 +204,7 @@ def inf_segments(rng, L, dims):
             segs.append([i, i + 1, i + 2])
     for k in sorted(set([L, 2 * L - 1, 2 * L, 2 * L + 1, 3 * L - 1])):
         i = rng.randrange(L)
-        if k >= 2 and i + k < 3 * L + L:
+        if k >= 2 and i + k < 3 * L:
             segs.append([i, i + k])
     return segs
 
